@@ -484,3 +484,53 @@ def feasible_reach(cfg, start, target, avoid=(), max_states=20000):
 def _mentions(atom_text, name):
     import re
     return re.search(r'(?<![A-Za-z0-9_.])%s(?![A-Za-z0-9_])' % re.escape(name), atom_text) is not None
+
+
+# ------------------------------------------------- what is known at a node
+
+def _cuts(cfg, t, label, use):
+    """Every path ENTRY ->* use goes through the edge (t --label-->)."""
+    if not any(lab == label for s, lab in t.succs):
+        return False
+    seen = set()
+    stack = [cfg.entry]
+    while stack:
+        n = stack.pop()
+        for s, lab in n.succs:
+            if n is t and lab == label:
+                continue
+            if s in seen:
+                continue
+            seen.add(s)
+            stack.append(s)
+    return use not in seen
+
+
+def known_at(cfg, node, atom, polarity=True, rd=None):
+    """Is the boolean atom (normalised text of an expression) known to have the given truth value whenever `node` is
+    reached?  True when some test that contains the atom decides it on the only edge through which `node` can be
+    reached: the true edge of `atom` / `atom and ...`, or the false edge of `not atom` / `not atom or ...` (and the
+    mirror cases), with no re-definition of the atom's names between the test and the node (reaching definitions
+    `rd`, optional).  However the branching is written (nested ifs, elif chains, guard clauses) the answer is the same."""
+    names = None
+    for t in cfg.nodes:
+        if t.kind not in ('test', 'while') or t.ast is None:
+            continue
+        kind, lits = _literals(t.ast.test)
+        for text, pol, expr in lits:
+            if text != atom:
+                continue
+            edge = None
+            if kind in ('lit', 'and') and pol == polarity:
+                edge = 'true'        # test true => every conjunct true
+            if kind in ('lit', 'or') and pol != polarity:
+                edge = 'false'       # test false => every disjunct false
+            if edge is None or not _cuts(cfg, t, edge, node):
+                continue
+            if rd is not None:
+                if names is None:
+                    names = [x.id for x in ast.walk(expr) if isinstance(x, ast.Name)]
+                if any(rd[t].get(nm) != rd[node].get(nm) for nm in names):
+                    continue
+            return True
+    return False
